@@ -92,9 +92,13 @@ def embedLine (j : Json) : Except String Json := do
   match embed env vi off q with
   | .unmodelled t => pure (Json.mkObj [("unmodelled", t.name)])
   | .ok lit =>
+    -- `region`: the finding region the text is in although the model answers (escN / lineSep), else null;
+    -- `expected`: the property's text (every character kept, re-indented); `described`: the closed form of what is sent
     pure (Json.mkObj [("unparsed", encText (unparseConsts env (constants q))), ("literal", encText lit),
       ("sent", match evalTripleQuoted lit with | some v => encText v | none => Json.null),
-      ("expected", encText (expectedSent (vi + off) q))])
+      ("region", match trigger q with | some t => Json.str t.name | none => Json.null),
+      ("expected", encText (expectedText (vi + off) q)),
+      ("described", encText (describedSent (vi + off) q))])
 
 def pystrLine (j : Json) : Except String Json := do
   let fn ← GqlWire.str j "fn"
